@@ -194,6 +194,15 @@ def declared(dump):
         return dump
     out = {k: declared(v) for k, v in dump.items()}
     kw = out.get("kw")
+    # `additionalItems` / `additionalProperties` holding a bare `Nothing()` (a composition that collapsed onto `false`) is written
+    # `false`, which the parser keeps as the boolean: the same keyword value in its other spelling (the `notNothing` clause of the
+    # normal form `NF`), not a value lost
+    for name, flag in (("addItems", "addItemsB"), ("addProps", "addPropsB")):
+        sub = out.get(name)
+        if isinstance(sub, dict) and sub.get("cls") == "Nothing" and not sub.get("kw"):
+            out.pop(name)
+            out.setdefault("kw", {})[flag] = False
+            kw = out["kw"]
     if isinstance(kw, dict):
         if kw.get("hasProps") and not out.get("props"):
             kw.pop("hasProps")
